@@ -428,10 +428,10 @@ theorem reparsed_priority (c : Cand) (env : Env)
 
 theorem reparsed_extensions (env : Env) (c : Cand) : extensions (reparsed env c) = extensions c := rfl
 
-theorem reparsed_equal (env : Env) (c : Cand) : equal (reparsed env c) c = true := by
-  rw [equal_iff]; simp [reparsed]
+theorem reparsed_equal (env : Env) (c : Cand) : equal env (reparsed env c) c = true :=
+  equal_of_fields env _ _ rfl rfl rfl rfl rfl rfl
 
-theorem reparsed_deepEqual (env : Env) (c : Cand) : deepEqual (reparsed env c) c = true := by
+theorem reparsed_deepEqual (env : Env) (c : Cand) : deepEqual env (reparsed env c) c = true := by
   unfold deepEqual
   rw [reparsed_equal, reparsed_extensions, extensionsEqual_refl]; rfl
 
